@@ -1,5 +1,5 @@
 HOOK_COMMITS = ["1ff129b", "a99d5e7"]
-FIX_COMMITS = ["4e1b160", "0b73798", "872da6d", "b5a5c41", "ada87a3", "a2a8667", "23387d2", "95cd43f", "1d40f2f", "9fea99c", "bc380c0", "6fab2aa", "6b8e051", "ae1cc55", "185de16", "f515ae6", "323b567"]
+FIX_COMMITS = ["4e1b160", "0b73798", "872da6d", "b5a5c41", "ada87a3", "a2a8667", "23387d2", "95cd43f", "1d40f2f", "9fea99c", "bc380c0", "6fab2aa", "6b8e051", "ae1cc55", "185de16", "f515ae6", "323b567", "b95a3c3"]
 NOTES = "See DESIGN.md. Every check rebuilds the Lean property module, audits axioms, rebuilds the harness from /repo's working tree (content-hash cache) and runs the ties."
 NOT_APPLICABLE = {}
 CHECKS = {'C09': {'category': 'translation_validation',
@@ -99,15 +99,16 @@ CHECKS = {'C09': {'category': 'translation_validation',
          'note': 'SC interleavings only (threads serialised by a baton at every atomic operation); memory orders not modelled; explored schedules only for the history/oracle/trace ties; Lean kernel '
                  '+ propext/Classical.choice/Quot.sound. Unbounded positions (no 2^64 wrap); weak CAS never fails spuriously; single_consumer front()/pop_front() has no machine (histories only); '
                  'capacity 1 is a precondition violation of the queue (recorded).'},
- 'C10': {'category': 'translation_validation',
-         'technique': 'Lean 4: theorems about a transcription of FCDeque::fc_process/fc_apply (elimination pass and batch application refine a permutation of the batch run by Spec.deque; collide '
-                      'rule as iff) + kernel theorems of C23 + histories of the real FCDeque judged by the verified linearizability checker',
-         'text': "Algo/FC/Batch transcribes the elimination loop shared by FCDeque/FCQueue/FCStack and the containers' apply functions; C10_collide_rule (iff), C10_cross_end_only_if_empty, "
-                 'C10_batch_refines, C10_session_refines, C10_batch_linearizable are theorems for every batch. The transcription is a hand model; it is tied to the code by histories of the real '
-                 'FCDeque (std::deque and boost deque, elimination on/off, compact factor 1-2, passes 1-4) under the deterministic scheduler, where every collision the real code performs must be '
-                 'explained by Spec.deque.',
-         'note': 'SC interleavings only (threads serialised by a baton at every atomic operation); memory orders not modelled; explored schedules only for the history/oracle/trace ties; Lean kernel '
-                 '+ propext/Classical.choice/Quot.sound. Fixed batch (requests arriving during the walk not modelled); composition batch + kernel is not a Lean theorem.'},
+ 'C10': {'category': 'proof',
+         'technique': 'Lean 4: flat-combining kernel machine over an arbitrary deterministic sequential object proved linearizable for all schedules (corollary: FCDeque without elimination is a '
+                      'linearizable deque) + atomic-trace conformance on the real kernel driving a deque + theorems about FCDeque::fc_process / fc_apply (collide rule as iff, batch refines a '
+                      'permutation run by Spec.deque) tied by a differential run on the real functions + histories of the real FCDeque judged by the verified checker',
+         'text': 'C10_fc_linearizable: for every sequential object, configuration, schedule and client program the history of the flat-combining container is Herlihy-Wing linearizable to the '
+                 "object's specification (linearization point: the exec step on the operation's record); C10_fcdeque_linearizable instantiates it with Spec.deque (likewise C06_fcqueue, C09_fcstack, "
+                 'C11_fcpq). The kernel part of the machine is literally KernelR (C23), replayed against the real kernel. Elimination: C10_collide_rule, C10_cross_end_only_if_empty, '
+                 'C10_batch_refines, C10_session_refines are theorems about a fixed batch, tied to the real fc_process / fc_apply / combining pass by the differential run (cdsdriver fcbatch); '
+                 'elimination under concurrency (requests arriving during the walk) is decided by histories of the elimination variants, not by a theorem.',
+         'note': 'SC interleavings only; memory orders not modelled; explored schedules only for the ties; FC wait strategy backoff only; Lean kernel + propext/Classical.choice/Quot.sound.'},
  'C11': {'category': 'translation_validation',
          'technique': 'Lean 4: MSPriorityQueue machine (size lock, node locks, tags, bit-reversed slots) with lock-discipline, conservation, capacity and heap-shape theorems over all schedules + '
                       'atomic-trace conformance + FC batch theorem and differential tie for FCPriorityQueue + histories judged by the verified checker + conservation oracle for overlapping histories',
